@@ -352,14 +352,19 @@ def _sym_laws(ctx, m, mdl, cfg, pre=''):
 
 # ---------------------------------------------------------------------------
 # float laws on the unpatched public API (replay / differential oracle)
-def _float_laws(mdl, cfg, p, d1, d2, x=90.0, want_inverse=True):
-    """-> dict law -> detail of the laws violated at this point"""
+def _float_laws(mdl, cfg, p, d1, d2, x=90.0, want_inverse=True, build=None):
+    """-> dict law -> detail of the laws violated at this point.
+
+    `build()` (optional) returns the object under test after the exact
+    call history of the symbolic run (constructor with the pre-state values,
+    then the setter calls); `p` are the parameters that object must have.
+    Without it a fresh object is constructed from `p`."""
     pl = repo_module(PL)
     bad = {}
     policy, shape = cfg['policy'], cfg['shape']
     with warnings.catch_warnings():
         warnings.simplefilter('ignore')
-        m = mdl.flt(cfg, p, pl)
+        m = build() if build is not None else mdl.flt(cfg, p, pl)
         m.handle_small_distances_bool = policy
         ds = (d1, d2)
         det = [mdl.oracle(cfg, p, d, i) for i, d in enumerate(ds)]
@@ -462,7 +467,10 @@ def _law_of(name):
     return n
 
 
-def _replay_laws(mdl, cfg, name, model, site=None):
+def _replay_laws(mdl, cfg, name, model, site=None, states=None):
+    """`states`: optional list of (params, build) -- objects reached by a
+    call history (first entry: the history with the model's values); replaces
+    the fresh-object parameter grid."""
     m = model_floats(model)
     site = site or mdl.cls
     pts = []
@@ -470,14 +478,15 @@ def _replay_laws(mdl, cfg, name, model, site=None):
         pts.append((m['d1'], m['d2']))
     xs = [m['x']] if isinstance(m.get('x'), float) else []
     xs += [0.0, 90.0, 250.0]
-    plist = [_params_from(mdl, m)] + mdl.grid(cfg)
+    if states is None:
+        states = [(q, None) for q in [_params_from(mdl, m)] + mdl.grid(cfg)]
     law = _law_of(name)
     if law.startswith('no-exception'):
         law = 'exception:' + law.split(':', 1)[1]
-    for k, p in enumerate(plist):
+    for k, (p, build) in enumerate(states):
         for (a, b) in (pts if k == 0 else []) + _dgrid():
             for x in xs[:1 if k else None]:
-                bad = _float_laws(mdl, cfg, p, a, b, x)
+                bad = _float_laws(mdl, cfg, p, a, b, x, build=build)
                 if law in bad:
                     cls = ''
                     if law == 'inverse' and bad[law] == 'returns-None':
@@ -485,6 +494,8 @@ def _replay_laws(mdl, cfg, name, model, site=None):
                     return dict(reproduced=True,
                                 key='C13/%s/%s%s' % (site, law, cls),
                                 detail=dict(params=p, d=[a, b], x=x,
+                                            history=getattr(
+                                                build, 'history', None),
                                             policy=cfg['policy'],
                                             shape=cfg['shape'],
                                             failed=bad))
@@ -598,12 +609,15 @@ class Setters(Harness):
                  PL + ':PathLossOkomuraHata.hbs',
                  PL + ':PathLossOkomuraHata.hms',
                  PL + ':PathLossOkomuraHata.area_type')
-    bounds = ('pre-state: private fields overwritten with symbolic values '
-              'satisfying the invariant (free space: n0>0, fc0>0, C0 = '
-              '10 n0 (log10(fc0 1e6)-4.3779..); Okumura-Hata: parameters in '
+    bounds = ('pre-state: an arbitrary state satisfying the invariant, '
+              'reached through the public API with symbolic values (free '
+              'space: PathLossFreeSpace(n0, fc0), n0>0, fc0>0, so C0 = 10 n0 '
+              '(log10(fc0 1e6)-4.3779..); Okumura-Hata: setters with values in '
               'their ranges, any of the 4 area types); one setter call with an '
               'unconstrained symbolic argument (free space: positive); '
-              'thorough adds two-step sequences from the constructor state')
+              'thorough adds two-step sequences from the constructor state; '
+              'replay and concrete runs execute the same history (construct '
+              'with the pre-state values, call the setter, query)')
     stubs = Laws.stubs
     assumptions = tuple(ASSUMPTIONS) + (
         'induction: the laws are proved for EVERY state satisfying the '
@@ -660,12 +674,14 @@ class Setters(Harness):
                         exp_f = v
                     ctx.prove('invariant[%d]' % j, _fs_invariant(m))
             else:
-                m = pl.PathLossFreeSpace()
+                # arbitrary invariant-satisfying pre-state, reached through
+                # the public API (every (n0, fc0, C(n0, fc0)) is the state of
+                # PathLossFreeSpace(n0, fc0)); any cache the class derives
+                # from its parameters is then in its reachable state too
                 n0 = ctx.real('n0', positive=True)
                 f0 = ctx.real('fc0', positive=True)
-                m._n, m._fc = n0, f0
-                m._C = 10 * n0 * (uf.log10(f0 * Fraction(10**6)) -
-                                  Fraction(FS_K))
+                m = pl.PathLossFreeSpace(n0, f0)
+                ctx.prove('invariant[pre]', _fs_invariant(m))
                 v = ctx.real('v', positive=True)
                 setattr(m, op, v)
                 exp_n, exp_f = (v, f0) if op == 'n' else (n0, v)
@@ -683,8 +699,10 @@ class Setters(Harness):
             st = dict(hbs=ctx.real('hbs0', lo=30, hi=200),
                       hms=ctx.real('hms0', lo=1, hi=10),
                       fc=ctx.real('fc0', lo=150, hi=1500))
-            m._hbs, m._hms, m._fc = st['hbs'], st['hms'], st['fc']
-            m._area_type = cfg['area']
+            # pre-state through the public setters (the constrained values
+            # make the range tests one-sided: no fork)
+            m.hbs, m.hms, m.fc = st['hbs'], st['hms'], st['fc']
+            m.area_type = cfg['area']
             _oh_literals()
             rng = dict(hbs=(30, 200), hms=(1, 10), fc=(150, 1500))
             if op == 'area':
@@ -768,19 +786,64 @@ class Setters(Harness):
             p[op] = v
         return o, p, (acc == valid)
 
+    def _histories(self, cfg, m):
+        """value dicts of the histories to run: the model's values first, then
+        fallbacks in which the pre-state and the new value differ"""
+        out = [dict(m)]
+        op = cfg['op']
+        if cfg['model'] == 'freespace':
+            if op == 'n':
+                out += [dict(n0=3.0, fc0=700.0, v=2.2),
+                        dict(n0=2.0, fc0=900.0, v=3.5),
+                        dict(n0=4.0, fc0=2100.0, v=2.0)]
+            elif op == 'fc':
+                out += [dict(n0=3.0, fc0=700.0, v=2100.0),
+                        dict(n0=2.0, fc0=900.0, v=150.0),
+                        dict(n0=3.7, fc0=28000.0, v=900.0)]
+            elif op == 'ctor':
+                out += [dict(n=3.0, fc=1800.0), dict(n=2.0, fc=60000.0)]
+            else:
+                out += [{'v%d' % j: x for j, x in enumerate(vs)}
+                        for vs in ((3.5, 2100.0, 2.7), (2.7, 3.5, 4.0),
+                                   (450.0, 3.1, 2.0))]
+        elif cfg['model'] == 'metis':
+            out += [dict(fc0=700.0, fc=2600.0), dict(fc0=60000.0, fc=900.0)]
+        elif op != 'area':
+            out += [dict(m, v=x) for x in (29.0, 30.0, 200.0, 201.0, 0.5, 1.0,
+                                           10.0, 11.0, 149.0, 150.0, 1500.0,
+                                           1501.0)]
+            out += [dict(hbs0=150.0, hms0=7.0, fc0=250.0,
+                         v=dict(hbs=35.0, hms=1.5, fc=1200.0)[op])]
+        return out
+
+    def _states(self, cfg, m):
+        """-> list of (expected params, build, area): one per history; build()
+        re-executes the history on a new object through the public API"""
+        out = []
+        with warnings.catch_warnings():
+            warnings.simplefilter('ignore')
+            for hv in self._histories(cfg, m):
+                o, p, ok = self._float_state(cfg, hv)
+                area = p.pop('area', None)
+
+                def build(hv=hv):
+                    return self._float_state(cfg, hv)[0]
+
+                build.history = dict(op=cfg['op'], seq=cfg.get('seq'),
+                                     value=cfg.get('value'),
+                                     values={k: v for k, v in hv.items()
+                                             if isinstance(v, (int, float))})
+                out.append((p, build, area))
+        return out
+
     def replay(self, cfg, name, model):
         mdl = MODELS[cfg['model']]
         m = model_floats(model)
         law = _law_of(name)
         site = '%s/setter-%s' % (mdl.cls, cfg['op'])
-        vals = [m]
-        if cfg['model'] == 'oh' and cfg['op'] != 'area':
-            vals += [dict(m, v=x) for x in (29.0, 30.0, 200.0, 201.0, 0.5, 1.0,
-                                            10.0, 11.0, 149.0, 150.0, 1500.0,
-                                            1501.0)]
         with warnings.catch_warnings():
             warnings.simplefilter('ignore')
-            for mm in vals:
+            for mm in self._histories(cfg, m):
                 o, p, ok = self._float_state(cfg, mm)
                 bad = {}
                 if not ok:
@@ -815,18 +878,24 @@ class Setters(Harness):
                     return dict(reproduced=True,
                                 key='C13/%s:%s' % (site,
                                                    law.split('[')[0]),
-                                detail=dict(params=p, failed=bad))
+                                detail=dict(params=p, history={
+                                    k: v for k, v in mm.items()
+                                    if isinstance(v, (int, float))},
+                                    failed=bad))
         if law in ('getter', 'setter-range') or law.startswith('invariant'):
             return dict(reproduced=False, key=None,
                         detail='%s holds on replay' % law)
-        # a law of the post-state: evaluate on an object in that state
-        o, p, ok = self._float_state(cfg, m)
-        p.pop('area', None)
-        return _replay_laws(mdl, dict(cfg, area=getattr(o, 'area_type',
-                                                        None)),
-                            name, dict(model, **p), site=site)
+        # a law of the post-state: evaluated on objects that went through the
+        # SAME history as the symbolic path (never on a fresh object built
+        # from the post-state parameters)
+        states = self._states(cfg, m)
+        area = states[0][2]
+        return _replay_laws(mdl, dict(cfg, area=area) if area else cfg, name,
+                            model, site=site,
+                            states=[(p, b) for p, b, _ in states])
 
     def concrete(self, cfg, rng):
+        mdl = MODELS[cfg['model']]
         n = 0
         for _ in range(6):
             m = dict(n0=rng.uniform(1.5, 5), fc0=rng.uniform(100, 6000),
@@ -834,6 +903,12 @@ class Setters(Harness):
                      v=rng.uniform(1.5, 1600), v0=rng.uniform(1.5, 5),
                      v1=rng.uniform(1.5, 5000), hbs0=rng.uniform(30, 200),
                      hms0=rng.uniform(1, 10))
+            if cfg['model'] == 'freespace' and cfg['op'] == 'n':
+                m['v'] = rng.uniform(1.5, 5)
+            if cfg['model'] == 'freespace' and cfg['op'] == 'seq':
+                for j, o in enumerate(cfg['seq']):
+                    m['v%d' % j] = rng.uniform(1.5, 5) if o == 'n' else \
+                        rng.uniform(100, 6000)
             if cfg['model'] == 'oh':
                 m['fc0'] = rng.uniform(150, 1500)
                 m['v'] = rng.uniform(-50, 1700)
@@ -841,6 +916,16 @@ class Setters(Harness):
                 r = self.replay(cfg, law, m)
                 if r['reproduced']:
                     raise AssertionError('setter check fails: %r' % (r, ))
+            # the laws on the object that went through this history
+            p, build, area = self._states(cfg, m)[0]
+            a, b = sorted((10**rng.uniform(-3, 3), 10**rng.uniform(-3, 3)))
+            bad = _float_laws(mdl, dict(cfg, area=area) if area else cfg, p,
+                              a, b, rng.uniform(0, 300),
+                              want_inverse=mdl.has_inverse is True,
+                              build=build)
+            if bad:
+                raise AssertionError('laws fail after the history %r: %r' %
+                                     (build.history, bad))
             n += 1
         return n
 
